@@ -159,6 +159,29 @@ package termincommittee
 //@   | && Signed(tic, nvm.content.Message().SignedHeader(), nvm.content.Message().Sender())
 //@   | && nvm.content.Message().Sender().MemberId() == LeaderOf(tic.committeeMembers, nvm.content.SignedHeader().View())
 
+// What an elected leader sends as NEW_VIEW (producer side of C11 clause 1), split into four parts so that a failure names
+// the part: header and votes, embedded proposal, lock (under the premise A-QI: two votes' good proofs of one view certify
+// one hash - a consequence of quorum intersection and honest non-equivocation, C01, not decidable from one node), fresh block.
+//@ pred NVHeaderGood(tic *TermInCommittee, nvm *interfaces.NewViewMessage) = nvm.content != nil && nvm.content.SignedHeader().MessageType() == protocol.LEAN_HELIX_NEW_VIEW
+//@   | && VerifiedMsg(tic.keyManager, nvm.content.SignedHeader().BlockHeight(), nvm.content.SignedHeader().Raw(), nvm.content.Sender().MemberId(), nvm.content.Sender().Signature())
+//@   | && nvm.content.Sender().MemberId() == tic.myMemberId && tic.myMemberId == LeaderOf(tic.committeeMembers, nvm.content.SignedHeader().View())
+//@   | && nvm.content.SignedHeader().BlockHeight() == tic.State.height
+//@ pred NVProposalGood(tic *TermInCommittee, nvm *interfaces.NewViewMessage) = nvm.content.Message().SignedHeader().View() == nvm.content.SignedHeader().View()
+//@   | && nvm.content.Message().SignedHeader().BlockHeight() == nvm.content.SignedHeader().BlockHeight()
+//@   | && nvm.content.Message().SignedHeader().MessageType() == protocol.LEAN_HELIX_PREPREPARE && Canonical(nvm.content.Message().SignedHeader())
+//@   | && Signed(tic, nvm.content.Message().SignedHeader(), nvm.content.Message().Sender())
+//@   | && nvm.content.Message().Sender().MemberId() == LeaderOf(tic.committeeMembers, nvm.content.SignedHeader().View())
+//@ pred NVQI(nvm *interfaces.NewViewMessage) = forall qj, qk :: 0 <= qj && qj < seq_len(nvm.content.SignedHeader(), "ViewChangeConfirmations") && 0 <= qk && qk < seq_len(nvm.content.SignedHeader(), "ViewChangeConfirmations")
+//@   | && HasProof(seq_at(nvm.content.SignedHeader(), "ViewChangeConfirmations", qj)) && HasProof(seq_at(nvm.content.SignedHeader(), "ViewChangeConfirmations", qk))
+//@   | && seq_at(nvm.content.SignedHeader(), "ViewChangeConfirmations", qj).SignedHeader().PreparedProof().PreprepareBlockRef().View() == seq_at(nvm.content.SignedHeader(), "ViewChangeConfirmations", qk).SignedHeader().PreparedProof().PreprepareBlockRef().View()
+//@   | ==> seq_at(nvm.content.SignedHeader(), "ViewChangeConfirmations", qj).SignedHeader().PreparedProof().PreprepareBlockRef().BlockHash() == seq_at(nvm.content.SignedHeader(), "ViewChangeConfirmations", qk).SignedHeader().PreparedProof().PreprepareBlockRef().BlockHash()
+//@ pred NVLockAllGood(tic *TermInCommittee, nvm *interfaces.NewViewMessage) = forall lk :: 0 <= lk && lk < seq_len(nvm.content.SignedHeader(), "ViewChangeConfirmations") && HasProof(seq_at(nvm.content.SignedHeader(), "ViewChangeConfirmations", lk))
+//@   |        && (forall lj :: 0 <= lj && lj < seq_len(nvm.content.SignedHeader(), "ViewChangeConfirmations") && HasProof(seq_at(nvm.content.SignedHeader(), "ViewChangeConfirmations", lj))
+//@   |              ==> seq_at(nvm.content.SignedHeader(), "ViewChangeConfirmations", lj).SignedHeader().PreparedProof().PreprepareBlockRef().View() <= seq_at(nvm.content.SignedHeader(), "ViewChangeConfirmations", lk).SignedHeader().PreparedProof().PreprepareBlockRef().View())
+//@   |      ==> NVLockGood(tic, nvm, seq_at(nvm.content.SignedHeader(), "ViewChangeConfirmations", lk))
+//@ pred NVFreshGood(tic *TermInCommittee, nvm *interfaces.NewViewMessage) = (forall lk :: 0 <= lk && lk < seq_len(nvm.content.SignedHeader(), "ViewChangeConfirmations") ==> !HasProof(seq_at(nvm.content.SignedHeader(), "ViewChangeConfirmations", lk)))
+//@   | ==> Commits(tic.blockUtils, nvm.content.SignedHeader().BlockHeight(), nvm.block, nvm.content.Message().SignedHeader().BlockHash())
+
 // two correct members of one committee at one height: same member list, and their key managers give the same verdicts
 // (A-KM-AGREE: verification is a function of the public data, the same at every correct node)
 //@ pred SameCommittee(a *TermInCommittee, b *TermInCommittee) = len(a.committeeMembers) == len(b.committeeMembers)
@@ -314,6 +337,11 @@ package termincommittee
 //@     | && dyn(message, *interfaces.NewViewMessage).content.SignedHeader().View() == tic.State.view
 //@     | && tic.myMemberId == LeaderOf(tic.committeeMembers, dyn(message, *interfaces.NewViewMessage).content.SignedHeader().View())
 //@   requires [C11:O11.1.an-emitted-prepare-is-one-a-peer-accepts] istype(message, *interfaces.PrepareMessage) ==> EmittedPrepare(tic, dyn(message, *interfaces.PrepareMessage))
+//@   requires [C11:O11.1.new-view.header-signed-by-this-leader-for-its-height] istype(message, *interfaces.NewViewMessage) ==> NVHeaderGood(tic, dyn(message, *interfaces.NewViewMessage))
+//@   requires [C11:O11.1.new-view.nested-votes-verify-and-reach-quorum] istype(message, *interfaces.NewViewMessage) ==> NVVotesGood(tic, dyn(message, *interfaces.NewViewMessage).content.SignedHeader())
+//@   requires [C11:O11.1.new-view.embedded-proposal-is-an-acceptable-proposal-of-this-leader] istype(message, *interfaces.NewViewMessage) ==> NVProposalGood(tic, dyn(message, *interfaces.NewViewMessage))
+//@   requires [C11:O11.1.new-view.the-locked-block-is-reproposed] istype(message, *interfaces.NewViewMessage) && NVQI(dyn(message, *interfaces.NewViewMessage)) ==> NVLockAllGood(tic, dyn(message, *interfaces.NewViewMessage))
+//@   requires [C11:O11.1.new-view.a-fresh-block-satisfies-the-proposed-hash] istype(message, *interfaces.NewViewMessage) ==> NVFreshGood(tic, dyn(message, *interfaces.NewViewMessage))
 //@   requires [C11:O11.1.an-emitted-commit-is-one-a-peer-accepts] istype(message, *interfaces.CommitMessage) ==> EmittedCommit(tic, dyn(message, *interfaces.CommitMessage))
 //@   modifies ghost:sentPrepare, ghost:sentPrepareHash, ghost:sentCommit, ghost:sentCommitHash, ghost:proposed
 //@   assume [A-GHOST.send-log] istype(message, *interfaces.PreprepareMessage) ==> proposed[dyn(message, *interfaces.PreprepareMessage).content.SignedHeader().View()]
@@ -668,7 +696,7 @@ package termincommittee
 //@   requires [term-not-yet-committed] ncommitted == 0
 //@   ensures [O9.lock-kept] LockKept(tic, old(tic.preparedLocally), old(tic.preparedLocally.isPreparedLocally), old(tic.preparedLocally.latestView))
 //@   assert before call RequestNewBlockProposal [O4.a-new-block-is-requested-for-this-height-in-this-node-name-on-top-of-the-previous-block] $blockHeight == tic.State.height && $memberId == tic.myMemberId && $prevBlock == tic.prevBlock
-//@   props C07 C09 C10 C04 C15 C12
+//@   props C07 C09 C10 C04 C15 C12 C11
 //@   safety iface
 //@   requires TicOK(tic)
 //@   inv GhostInv(tic)
